@@ -209,6 +209,48 @@ pub fn parse_alloc_len_ok(data: &[u8]) -> Vec<u8> {
     v
 }
 
+/// the size is used only after a `0..count` loop that read input on every iteration has run to completion
+pub fn parse_alloc_after_loop_ok(data: &[u8]) -> std::io::Result<Vec<u64>> {
+    use std::io::Read;
+    let h = read_header(data).ok_or(std::io::ErrorKind::UnexpectedEof)?;
+    let mut cur = std::io::Cursor::new(data);
+    let mut first = Vec::new();
+    for _ in 0..h.count {
+        let mut k = [0u8; 8];
+        cur.read_exact(&mut k)?;
+        first.push(u64::from_le_bytes(k));
+    }
+    let mut v = Vec::with_capacity(h.count as usize);
+    v.extend(first);
+    Ok(v)
+}
+
+/// same loop, but the allocation comes first
+pub fn parse_alloc_before_loop_bad(data: &[u8]) -> std::io::Result<Vec<u64>> {
+    use std::io::Read;
+    let h = read_header(data).ok_or(std::io::ErrorKind::UnexpectedEof)?;
+    let mut cur = std::io::Cursor::new(data);
+    let mut v = Vec::with_capacity(h.count as usize);
+    for _ in 0..h.count {
+        let mut k = [0u8; 8];
+        cur.read_exact(&mut k)?;
+        v.push(u64::from_le_bytes(k));
+    }
+    Ok(v)
+}
+
+/// a dominating loop that reads nothing bounds nothing
+pub fn parse_alloc_after_idle_loop_bad(data: &[u8]) -> Option<Vec<u64>> {
+    let h = read_header(data)?;
+    let mut n = 0u64;
+    for i in 0..h.small {
+        n += u64::from(i);
+    }
+    let mut v = Vec::with_capacity(h.count as usize);
+    v.push(n);
+    Some(v)
+}
+
 fn helper_unwrap(x: Option<u32>) -> u32 {
     x.unwrap()
 }
